@@ -230,6 +230,13 @@ theorem window_append_right (a b : Bytes) (k w : Nat) : ((a ++ b).drop (a.length
   have : List.drop (a.length + k) a = [] := List.drop_eq_nil_of_le (by omega)
   simp [this]
 
+theorem beAt_append_right' (a b : Bytes) (off k w : Nat) (h : off = a.length + k) : beAt (a ++ b) off w = beAt b k w := by
+  subst h; exact beAt_append_right a b k w
+
+theorem window_append_right' (a b : Bytes) (off k w : Nat) (h : off = a.length + k) :
+    ((a ++ b).drop off).take w = (b.drop k).take w := by
+  subst h; exact window_append_right a b k w
+
 /-- a read that lies below `m` only depends on the first `m` bytes -/
 theorem beAt_take (bs : Bytes) (m off w : Nat) (h : off + w ≤ m) : beAt (bs.take m) off w = beAt bs off w := by
   unfold beAt
@@ -240,5 +247,83 @@ theorem window_take (bs : Bytes) (m off w : Nat) (h : off + w ≤ m) :
     ((bs.take m).drop off).take w = (bs.drop off).take w := by
   rw [List.drop_take, List.take_take]
   congr 1; omega
+
+/-! ### bytes and lengths of piece lists -/
+
+theorem piecesBytes_append (a b : List Piece) : piecesBytes (a ++ b) = piecesBytes a ++ piecesBytes b := by
+  simp [piecesBytes]
+theorem piecesLen_append (a b : List Piece) : piecesLen (a ++ b) = piecesLen a + piecesLen b := by
+  simp [piecesLen]
+
+theorem piecesLen_eq_bytes (ps : List Piece) (ht : ∀ p ∈ ps, p.Tight) : piecesLen ps = (piecesBytes ps).length := by
+  induction ps with
+  | nil => rfl
+  | cons p ps ih =>
+    have := ih (fun q hq => ht q (by simp [hq]))
+    have htp := ht p (by simp)
+    have e : piecesLen (p :: ps) = p.adv + piecesLen ps := by simp [piecesLen]
+    have e2 : piecesBytes (p :: ps) = p.bytes ++ piecesBytes ps := by simp [piecesBytes]
+    rw [e, e2, List.length_append, this]
+    congr 1
+    cases p with
+    | put bs => rfl
+    | copy bs => rfl
+    | copyAdv bs a =>
+      simp only [Piece.Tight] at htp
+      simp [Piece.adv, Piece.bytes]; omega
+    | skip k => simp [Piece.adv, Piece.bytes]
+
+theorem piecesBytes_map_copy (bss : List Bytes) : piecesBytes (bss.map Piece.copy) = bss.flatten := by
+  induction bss with
+  | nil => rfl
+  | cons b bs ih =>
+    have : piecesBytes (List.map Piece.copy (b :: bs)) = b ++ piecesBytes (List.map Piece.copy bs) := by
+      simp [piecesBytes, Piece.bytes]
+    rw [this, ih]; simp
+
+theorem tight_map_copy (bss : List Bytes) : ∀ p ∈ bss.map Piece.copy, p.Tight := by
+  intro p hp
+  simp only [List.mem_map] at hp
+  obtain ⟨b, _, rfl⟩ := hp
+  trivial
+
+/-! ### big-endian reads in parts, list order -/
+
+theorem be_foldl (b : Bytes) : ∀ acc : Nat,
+    b.foldl (fun a (x : UInt8) => a * 256 + x.toNat) acc =
+      acc * 256 ^ b.length + b.foldl (fun a (x : UInt8) => a * 256 + x.toNat) 0 := by
+  induction b with
+  | nil => intro acc; simp
+  | cons x xs ih =>
+    intro acc
+    simp only [List.foldl_cons, List.length_cons]
+    rw [ih (acc * 256 + x.toNat), ih (0 * 256 + x.toNat)]
+    rw [Nat.pow_succ, Nat.add_mul, Nat.mul_assoc, Nat.mul_comm (256 ^ xs.length) 256]
+    simp only [Nat.zero_mul, Nat.zero_add]
+    omega
+
+/-- a big-endian field read in two parts -/
+theorem beAt_split (bs : Bytes) (off w1 w2 : Nat) (h : off + w1 + w2 ≤ bs.length) :
+    beAt bs off (w1 + w2) = beAt bs off w1 * 256 ^ w2 + beAt bs (off + w1) w2 := by
+  unfold beAt
+  rw [List.take_add, List.foldl_append, be_foldl]
+  have hl : (List.take w2 (List.drop w1 (List.drop off bs))).length = w2 := by
+    simp; omega
+  rw [hl, List.drop_drop]
+
+/-- list order: in `pre ++ bss.flatten ++ tail` the k-th element sits, complete, right after the elements before it -/
+theorem flatten_nth_window (pre : Bytes) (bss : List Bytes) (tail : Bytes) (k : Nat) (hk : k < bss.length) :
+    ((pre ++ bss.flatten ++ tail).drop (pre.length + ((bss.take k).map List.length).sum)).take bss[k].length = bss[k] := by
+  have hsplit : bss = bss.take k ++ bss[k] :: bss.drop (k + 1) := by
+    exact (List.take_append_drop k bss).symm.trans (by rw [List.drop_eq_getElem_cons hk])
+  have hl : (bss.take k).flatten.length = ((bss.take k).map List.length).sum := flatten_length_sum _
+  have e : pre ++ bss.flatten ++ tail = (pre ++ (bss.take k).flatten) ++ (bss[k] ++ ((bss.drop (k + 1)).flatten ++ tail)) := by
+    conv => lhs; rw [hsplit]
+    simp only [List.flatten_append, List.flatten_cons, List.append_assoc]
+  rw [e, ← hl]
+  have := window_append_right' (pre ++ (bss.take k).flatten) (bss[k] ++ ((bss.drop (k + 1)).flatten ++ tail))
+    (pre.length + (bss.take k).flatten.length) 0 bss[k].length (by simp)
+  rw [this]
+  simp
 
 end OFV.Go
